@@ -261,7 +261,7 @@ func init() {
 	vx.Register(&vx.Prop{
 		ID:    "C13",
 		Level: "model_checking",
-		Rule: "slot machine model (16 local types, each undefined or holding one of 6 definition variants: record little-endian, the same field list big-endian, record big-endian with other fields/sizes/order, device_info, an unknown message, record with an empty field list) explored two ways on the real decoder: (1) all words of length <=4 (quick) / <=5 (thorough) over {data(l), compressed data(l<=3), define(l,v)} for locals {0,1,3,4,15}, x 4 ways of writing the file_id record (local 0 / local 2, normal / compressed header); (2) breadth-first search over all reachable model slot states with a shortest witness each, every one-step extension followed by a probe of every defined slot (and one undefined slot), replayed on a fresh decoder; plus all 16 locals x variants at depth 2, plus long runs (one slot stays defined while other slots are redefined 20-3000 times with 2-255 fields). " +
+		Rule: "slot machine model (16 local types, each undefined or holding one of 6 definition variants: record little-endian, the same field list big-endian, record big-endian with other fields/sizes/order, device_info, an unknown message, record with an empty field list) explored two ways on the real decoder: (1) all words of length <=4 (quick) / <=5 (thorough) over {data(l), compressed data(l<=3), define(l,v)} for locals {0,1,3,4,15}, x 4 ways of writing the file_id record (local 0 / local 2, normal / compressed header); (2) breadth-first search over all reachable model slot states with a shortest witness each, every one-step extension followed by a probe of every defined slot (and one undefined slot), replayed on a fresh decoder; plus all 16 locals x variants at depth 2, plus long runs (one slot stays defined while other slots are redefined 20-3000 times with 2-255 fields), plus jumbo records (255 ... 130 050 bytes of regular and developer fields, unknown and known message) on a neighbouring slot between records of a live one. " +
 			"Oracle: each data record decodes under the latest definition of its slot (values via the C02 model), other slots unaffected, undefined slot => error with the earlier records kept. states/transitions = model states and extensions; traces = streams decoded",
 		Assumptions: []string{"streams carry no timestamp fields, so compressed headers do not alter content (timestamps are C12's subject)"},
 		Run:         runC13,
@@ -531,6 +531,65 @@ func runC13(w *vx.W) {
 			for i := range got {
 				if d := diffMsg(got[i], want, compIgnore(got[i])); d != "" {
 					w.Violation("long-runs", fmt.Sprintf("%s: record #%d: %s", desc, i, d), rep)
+					break
+				}
+			}
+		}
+	}
+	// (6) jumbo records on a neighbouring slot: an unknown (and a known) message whose records are 255, 256, 65 025,
+	// 65 535, 65 536, 65 790 and 130 050 bytes long (regular + developer bytes), between two records of a live slot
+	for ji, j := range []struct{ nreg, rsz, ndev, dsz int }{{1, 255, 0, 0}, {1, 255, 1, 1}, {255, 255, 0, 0}, {255, 255, 2, 255}, {255, 255, 3, 170}, {255, 255, 2, 255}, {255, 255, 3, 255}, {255, 255, 255, 255}, {128, 2, 0, 0}, {0, 0, 255, 255}} {
+		for gi, g := range []uint16{0xFF00, 20} {
+			if !w.Mine(int64(ji*2 + gi)) {
+				continue
+			}
+			dLive := c13Def(0, 1)
+			pl := c13Payload(dLive, 3)
+			_, want, _ := c13Expected(dLive, pl)
+			d := fitmodel.Def{Local: 2, Global: g, DevFlag: j.ndev > 0}
+			for i := 0; i < j.nreg; i++ {
+				d.Fields = append(d.Fields, fitmodel.FieldDef{Num: byte(i), Size: byte(j.rsz), Base: fitmodel.Byte})
+			}
+			if g == 20 {
+				// known message: unlisted field numbers only (byte arrays of any size are admitted for those)
+				for i := range d.Fields {
+					d.Fields[i].Num = byte(150 + i%100)
+				}
+				if len(d.Fields) > 100 {
+					d.Fields = d.Fields[:100]
+				}
+			}
+			for i := 0; i < j.ndev; i++ {
+				d.Dev = append(d.Dev, fitmodel.DevDef{Num: byte(i), Size: byte(j.dsz), Idx: 0})
+			}
+			body := make([]byte, d.DataLen())
+			for i := range body {
+				body[i] = 0x41 // 'A': as a record header this is a definition for local 1 - a desynchronised reader redefines the live slot
+			}
+			recs := [][]byte{fitmodel.FileIdDef(5, false).Bytes(), fitmodel.Data(5, []byte{4}), dLive.Bytes(), fitmodel.Data(1, pl), d.Bytes(), fitmodel.Data(2, body), fitmodel.Data(1, pl), fitmodel.Data(2, body), fitmodel.Data(1, pl)}
+			stream := fitmodel.File(fitmodel.DefaultHeader, recs...)
+			res := safeDecode(bytes.NewReader(stream))
+			w.Eval(1)
+			w.Trace(1)
+			w.Fam("jumbo-records-on-a-neighbouring-slot", 1)
+			desc := fmt.Sprintf("records of %d bytes (message %#x: %d fields of %d bytes + %d developer fields of %d bytes) on slot 2 between records of slot 1", d.DataLen(), g, len(d.Fields), j.rsz, j.ndev, j.dsz)
+			rep := c13Replay{Word: desc, Hex: trunc(vx.Hex(stream), 2000)}
+			if res.Err != nil || res.Panic != "" {
+				w.Violation("jumbo", fmt.Sprintf("%s: %v %s", desc, res.Err, res.Panic), rep)
+				continue
+			}
+			got := messagesOf(res.File, 20)
+			wantN := 3
+			if g == 20 {
+				wantN = 5
+			}
+			if len(got) != wantN {
+				w.Violation("jumbo", fmt.Sprintf("%s: %d record messages decoded, %d written", desc, len(got), wantN), rep)
+				continue
+			}
+			for _, i := range []int{0, wantN / 2, wantN - 1} {
+				if dd := diffMsg(got[i], want, compIgnore(got[i])); dd != "" {
+					w.Violation("jumbo", fmt.Sprintf("%s: record #%d of slot 1: %s", desc, i, dd), rep)
 					break
 				}
 			}
